@@ -692,6 +692,8 @@ def run(ctx):
     r8(ctx)
     from . import C05
     C05.r11(ctx, R="C01-R9")   # destructors run by crash / bounce must not see the wall clock
+    from . import C04
+    C04.r5(ctx)                # the software factory (host code) runs inside the host's runtime, on first start and on bounce
 
 
 TABLE_ACCESSORS = GLOBALS
